@@ -103,6 +103,7 @@ type jcase struct {
 	NewE     []aelem `json:"new,omitempty"`
 	Cur      []aelem `json:"cur,omitempty"`
 	Slot     int     `json:"slot,omitempty"` // elements: which annotation block the case uses
+	preDone  bool    // the Pre steps already ran as earlier cases of this run (they run again on replay)
 }
 
 const (
@@ -291,6 +292,8 @@ func (s *server) start() {
 	must(step{"POST", "/roi/roi", []byte(`[[1,1,1,3],[1,2,1,3]]`)})
 	must(step{"POST", "/kv/key/a", []byte("hello")})
 	must(step{"POST", "/img/raw/0_1_2/16_16_16/0_0_0", bytes.Repeat([]byte{7}, 16*16*16)})
+	inst("annotation", "anns", nil) // annotations synced with the labels of lm2
+	must(step{"POST", "/anns/sync", []byte(`{"sync":"lm2"}`)})
 	must(step{"POST", "/ann/elements", elemsJSON(el(5, 5, 5, "Note", "seed"))})
 	must(step{"POST", "/nj/key/1000?u=tester", []byte(`{"bodyid":1000,"a":1}`)})
 	s.sentinel = s.readSentinel()
@@ -400,6 +403,19 @@ func (s *server) runScript(pre []step, main step, probe *step) result {
 	if probe != nil && o.Class == "4xx" {
 		r.named = digest(s.do(*probe)) == before
 	}
+	// the server-wide throttle slot must be free again: a well-formed throttled request is served
+	t := s.do(step{"GET", "/lmsafe/blocks/16_16_16/0_0_0?throttle=on", nil})
+	for try := 0; try < 3 && t.Status == 503; try++ { // not merely a handler that is still finishing
+		time.Sleep(100 * time.Millisecond)
+		t = s.do(step{"GET", "/lmsafe/blocks/16_16_16/0_0_0?throttle=on", nil})
+	}
+	if t.Status == 503 {
+		r.obs = 7
+		r.detail = "afterwards GET lmsafe/blocks?throttle=on -> 503: " + string(t.Body)
+		s.deaths++
+		s.c.Kill()
+		return r
+	}
 	r.sentinel = s.readSentinel() == s.sentinel
 	if s.c.Dead() {
 		r.obs = obsCode("dead")
@@ -410,10 +426,20 @@ func (s *server) runScript(pre []step, main step, probe *step) result {
 
 var slowRequests []string
 
-var obsNames = []string{"2xx", "4xx", "5xx-panic", "5xx", "dead", "hang", "no-answer-but-alive"}
+// server generation (number of starts) on which the current multi-step history began
+var historyEpoch int
+
+var obsNames = []string{"2xx", "4xx", "5xx-panic", "5xx", "dead", "hang", "no-answer-but-alive", "throttle-slot-kept"}
 
 func addReq(run *lib.Run, c jcase) {
-	r := srv.runScript(c.Pre, *c.Main, c.Probe)
+	pre := c.Pre
+	if c.preDone && srv.c != nil && !srv.c.Dead() && srv.starts == historyEpoch {
+		pre = nil // the history's earlier steps ran as the preceding cases, on this very server
+	}
+	r := srv.runScript(pre, *c.Main, c.Probe)
+	if c.preDone {
+		historyEpoch = srv.starts // the history's state now exists on this server (if it is still alive)
+	}
 	run.Count(fmt.Sprintf("req:%s:%s:%s", famNames[c.Fam], []string{"well-formed", "malformed", "unknown"}[c.Expect], obsNames[r.obs]))
 	if !r.sentinel {
 		run.Count("sentinel-changed")
@@ -423,7 +449,7 @@ func addReq(run *lib.Run, c jcase) {
 	}
 	if r.detail != "" {
 		run.Notes = append(run.Notes, fmt.Sprintf("%s: %s %s: %s: %.200s", c.Name, c.Main.Method, c.Main.URL, obsNames[r.obs], r.detail))
-	} else if r.obs >= 2 || (c.Expect == eWell && r.obs != 0) || !r.named || !r.sentinel {
+	} else if r.obs >= 2 || (c.Expect == eWell && r.obs != 0 && c.Fam != 12) || !r.named || !r.sentinel {
 		run.Notes = append(run.Notes, fmt.Sprintf("%s: %s %s: %s %d sentinel=%v named=%v: %q", c.Name, c.Main.Method, c.Main.URL, obsNames[r.obs], r.status, r.sentinel, r.named, r.body))
 	}
 	c.Kind = "req"
@@ -695,6 +721,9 @@ func main() {
 	}
 	for _, c := range elementCases(rng, o.Thorough()) {
 		addElements(run, c)
+	}
+	for _, c := range annotationHistories(rng, o.Thorough()) {
+		addReq(run, c)
 	}
 
 	finish("package level: every truncation, hostile values in every header / count / index field, byte substitutions in the packed values and random bit flips of five valid 16^3 blocks (solid, 2, 3, 5 labels, with background) + the Coq witnesses, each through UnmarshalBinary(+Validate), MakeLabelVolume, CalcNumLabels, GetPointLabels; truncations and count inflation of sparse volumes through ReadRLEs. End to end in a child process under ulimit -v: valid and mutated payloads for POST blocks / ingest-supervoxels / raw / split-supervoxel / index / indices / mappings / elements / annotation blocks / roi / keyvalue / neuronjson and hostile URLs; status class, process death, hang (10 s), sentinel re-read after every request, named data re-read after every 4xx. distinct = distinct (payload, mutation) or (method, url, body)")
